@@ -357,9 +357,9 @@ theorem numWordLen_wordW (t rest : Bytes) (ht : ∀ c ∈ t, wordChar c = true) 
   | cons c r ih =>
     have hc := ht c (by simp)
     simp only [wordChar, Bool.and_eq_true, ne_eq, decide_eq_true_eq, Bool.not_eq_eq_eq_not, Bool.not_true] at hc
-    obtain ⟨⟨⟨⟨h1, h2⟩, h3⟩, h4⟩, _⟩ := hc
+    obtain ⟨⟨⟨⟨⟨h1, h2⟩, h3⟩, h4⟩, _⟩, h37⟩ := hc
     have := ih (fun x hx => ht x (by simp [hx]))
-    simp [numWordLen, h1, h2, h3, startsWith, List.isPrefixOf, this]
+    simp [numWordLen, h1, h2, h3, h37, startsWith, List.isPrefixOf, this]
     intro h46; exact absurd h46.symm h4
 
 theorem sepW_hd_facts (rest : Bytes) (h : SepW rest) :
